@@ -202,6 +202,11 @@ func (o *Oracles) onControlEvent(w *World, e *Event) {
 			if e.OK && e.Kind == "RET" {
 				c.forceStopped, c.forceStopSeq = true, e.Seq
 				c.stopClient = e.Ent
+				// the run had finished by itself (a graceful stop completed: every session closed,
+				// stopped status stored) before the request took effect: nothing was left to force
+				if st, _, ok := w.db.durableStatus(PipelineID); ok && (st == 2 || st == 3) && len(o.openSessions(w)) == 0 {
+					c.forceStopFoundRunOver = true
+				}
 			}
 		case "wait":
 			o.checkWaitResult(w, e)
